@@ -419,6 +419,7 @@ class Ctx:
         self.tie_meta = []      # per line: (case id, kind, alt-group)
         self.stats = {}
         self.nviol = 0
+        self.per_key = {}
 
     def count(self, k, n=1):
         self.stats[k] = self.stats.get(k, 0) + n
@@ -429,6 +430,9 @@ class Ctx:
 
     def viol(self, key, what, cid, script, info=None, driver="tsgdrv"):
         self.nviol += 1
+        self.per_key[key] = self.per_key.get(key, 0) + 1
+        if self.per_key[key] > 3:        # at most three replay files per key; every failure is still counted
+            return
         script = [l for l in script if l]
         self.res.violation(key, "%s [case %s: %s]" % (what, cid, " ; ".join(script[1:4])[:220]),
                            {"kind": "impl-counterexample", "script": script, "detail": what, "info": info, "driver": driver, "case": cid})
@@ -1249,6 +1253,7 @@ def run(res, tier, seed, replay_obj=None):
         "programs": len(cases), "traces_validated_against_impl": agree, "disagreements_checked": len(mism),
         "tie_lines": len(ctx.tie), "unit_cases": len(uinfo), "conformal_unit_cases": len(cinfo),
         "case_distribution": fam_count, "counts": ctx.stats, "direct_property_violations": ctx.nviol,
+        "direct_property_violations_by_key": ctx.per_key,
     })
     res.assumptions = [
         "theorems are over exact rationals with sqrt/pow/exp as arbitrary functions obeying the listed laws; the laws are checked against libm on random "
